@@ -290,18 +290,18 @@ static std::vector<Seed> make_seeds(int lg_k) {
   { Seed s; s.va = 0; s.name = "promoted8"; for (int i = 0; i < 8; ++i) s.coupons.push_back(hc::mk_coupon(3 + i, 2 + (i == 4 ? 15 : 0))); out.push_back(s); }
   return out;
 }
-static HllSys make_e1(int lg_k, target_hll_type fs_type, const Seed& sd) {
+static HllSys make_e1(int lg_k, target_hll_type fs_type, const Seed& sd, int nslots) {
   HllSys sys; sys.lg_k = lg_k; sys.fs_type = fs_type; sys.seed = sd.coupons; sys.hip_in_canon = false; sys.has_dup = false;
   const uint32_t k = 1u << lg_k;
   std::set<unsigned> vals; const unsigned va = sd.va;
   const unsigned cand[8] = { va < 1 ? 1 : va, va + 1, va + 2, va + 3, va + 15, va + 16, 63, va + 14 };
   for (int i = 0; i < 8 && vals.size() < 7; ++i) vals.insert(cand[i]);
-  const uint32_t act[3] = { 0, 1, k - 1 };
-  for (int a = 0; a < 3; ++a) for (std::set<unsigned>::const_iterator v = vals.begin(); v != vals.end(); ++v) sys.ops.push_back(op_abs(act[a], *v, lg_k));
+  const uint32_t act[4] = { 0, 1, k - 1, k - 2 };   // the 4th active slot (thorough) is a background slot: it starts at the background value
+  for (int a = 0; a < nslots; ++a) for (std::set<unsigned>::const_iterator v = vals.begin(); v != vals.end(); ++v) sys.ops.push_back(op_abs(act[a], *v, lg_k));
   sys.ops.push_back(op_simple(Op::ROT1, 0, "convert+1"));
   sys.ops.push_back(op_simple(Op::SER, hc::SER_UPDATABLE_BYTES, hc::ser_name(hc::SER_UPDATABLE_BYTES)));
   sys.ops.push_back(op_simple(Op::SER, hc::SER_COMPACT_BYTES, hc::ser_name(hc::SER_COMPACT_BYTES)));
-  sys.nm = "e1/lgk" + str(lg_k) + "/fs" + hc::type_name(fs_type) + "/" + sd.name;
+  sys.nm = "e1/lgk" + str(lg_k) + "/fs" + hc::type_name(fs_type) + "/" + sd.name + "/act" + str(nslots);
   return sys;
 }
 
@@ -318,7 +318,7 @@ int main(int argc, char** argv) {
       rep.assumptions.push_back("enumeration at lg_k 4,5,7,8 (thorough: also 6 and 9); LIST->HLL at the 8th coupon for lg_k<8, LIST->SET->HLL for lg_k>=8; register values 1..63");
       rep.assumptions.push_back("E1 canon leaves out the HIP accumulator (it depends on the arrival order; its increment is a function of kxq0+kxq1 which are in the canon and exact in binary floating point at these sizes); the HIP clauses are evaluated on every transition of the BFS instead of on new states only");
       rep.assumptions.push_back("cur_min/num_at_cur_min: HLL_4 must hold (minimum register, slots at the minimum); HLL_6/HLL_8 may hold either that pair or (0, number of zero slots), the convention documented in HllArray-internal.hpp");
-      rep.sets("rule", "E2: every path with <=d inserted deviations from a default coupon stream that walks LIST->(SET->)HLL and several HLL_4 cur-min shifts; E1: BFS to fixpoint over 3 active slots x 7 values (+conversion, +2 serialization round trips) from seeded register backgrounds; grid: every update overload x boundary values x 3 types. Four sketches (HLL_4, HLL_6, HLL_8, one started full-size) run in lock-step with a set<coupon>/reg[] model; in every state each sketch and a converted copy of each into each type is compared with the model. Distinct = distinct (mode, cur_min bucket, exception count bucket, last operation kind) tag.");
+      rep.sets("rule", "E2: every path with <=d inserted deviations from a default coupon stream that walks LIST->(SET->)HLL and several HLL_4 cur-min shifts; E1: BFS to fixpoint over 3 (thorough: 4) active slots x 7 values (+conversion, +2 serialization round trips) from seeded register backgrounds; grid: every update overload x boundary values x 3 types. Four sketches (HLL_4, HLL_6, HLL_8, one started full-size) run in lock-step with a set<coupon>/reg[] model; in every state each sketch and a converted copy of each into each type is compared with the model. Distinct = distinct (mode, cur_min bucket, exception count bucket, last operation kind) tag.");
     }; tasks.push_back(t); }
 
   // E2: deviation-bounded paths. One deviation: the menu is partitioned over tasks (exact). Two deviations (thorough): a 24-entry
@@ -332,7 +332,7 @@ int main(int argc, char** argv) {
       E2Plan pp = p; pp.menu.clear();
       for (size_t i = part; i < p.menu.size(); i += parts) pp.menu.push_back(p.menu[i]);
       pp.sys.nm = "e2/lgk" + str(lg) + "/fs" + hc::type_name(fst) + "/dev1/part" + str(part);
-      PathLimits pl; pl.max_dev = 1; pl.check_stride = lg <= 4 ? 1 : lg == 5 ? 2 : lg <= 7 ? (q ? 16 : 8) : (q ? 32 : 16);
+      PathLimits pl; pl.max_dev = 1; pl.check_stride = lg <= 4 ? 1 : lg == 5 ? 2 : lg <= 7 ? (q ? 8 : 4) : (q ? 16 : 8);
       Task t; t.name = pp.sys.nm; t.fn = [pp, pl, &cfg](Report& rep) mutable { explore_paths(pp.sys, pp.def, pp.menu, rep, cfg, pl); };
       tasks.push_back(t);
     }
@@ -364,7 +364,7 @@ int main(int argc, char** argv) {
     for (size_t i = 0; i < seeds.size(); ++i) {
       if (q && lg == 5 && (i % 4) != 1 && i < 24) continue;      // quick: at lg_k 5 only the backgrounds whose exception sits exactly at +15
       if (q && lg == 4 && i < 24 && (i / 8) == 2 && (i % 4) >= 2) continue;
-      HllSys sys = make_e1(lg, hc::TYPES[(i + lg) % 3], seeds[i]);
+      HllSys sys = make_e1(lg, hc::TYPES[(i + lg) % 3], seeds[i], q ? 3 : 4);
       BfsLimits lim; lim.max_depth = 64; lim.max_states = 400000; lim.check_every_transition = true;
       Task t; t.name = sys.nm; t.fn = [sys, lim, &cfg](Report& rep) mutable { explore(sys, rep, cfg, lim); };
       tasks.push_back(t);
